@@ -114,6 +114,11 @@ func tryFastCompare(expression string) *fastCompare {
 		if err != nil {
 			return nil
 		}
+		if n >= maxExactInt || n <= -maxExactInt {
+			// an integer literal beyond 2^53 is not exact as a float64 (9007199254740993 reads as ...992):
+			// the general engine compares it as an integer
+			return nil
+		}
 		return &fastCompare{field: m[1], op: m[2], numLit: n}
 	}
 	if m := fastFieldOpStr.FindStringSubmatch(expression); m != nil {
